@@ -13,3 +13,6 @@ import TinsModel.Props.C11
 #print axioms Tins.Props.C11.history_observations
 #print axioms Tins.Props.C11.serialize_reparse
 #print axioms Tins.Props.C11.setters_any_order_parsed
+#print axioms Tins.Props.C11.default_sized
+#print axioms Tins.Props.C11.typed_getter_last_write
+#print axioms Tins.Props.C11.getter_widths
